@@ -463,6 +463,28 @@ pub fn es_u() -> Family {
     Family::list(out)
 }
 
+/// ES-V: a run of k = 1..=24 characters native to one mode (left at every phase of its packing),
+/// whole EDIFACT groups (4m characters, m = 1..=6) and a short tail EDIFACT cannot carry: the
+/// generalisation of ES-U from one byte to a run.
+pub fn es_v() -> Family {
+    let mut out = Vec::new();
+    let classes: [&[u8]; 6] = [b"a", b"A", b"1", b"*>\r", &[0x80], b"aB"];
+    let tails: [&[u8]; 3] = [b"z", b"ab", &[0x80]];
+    for c in classes {
+        for k in 1..=24usize {
+            for m in 1..=6usize {
+                for t in tails {
+                    let mut v: Vec<u8> = c.iter().cycle().take(k).cloned().collect();
+                    v.extend(b"/./&".iter().cycle().take(4 * m));
+                    v.extend_from_slice(t);
+                    out.push(v);
+                }
+            }
+        }
+    }
+    Family::list(out)
+}
+
 /// ES-J2: a long Base256 / C40 run at a length-field boundary, an EDIFACT-favouring middle part
 /// of every length 0..=40 and a short suffix of another class.
 pub fn es_j2() -> Family {
